@@ -150,10 +150,15 @@ eq('refused_race', ['EXEC(0,1);EXEC(1,2)', 'EXEC(0,3)'], 'if ((ret[0][1]==0 && r
 
 # ----------------------------------------------------------------------------------------------- C18: hash set histories (sequential)
 HSX = ['babylon/concurrent/transient_hash_table.cpp']
-S('hs_default_grow', 'hashset/hs_grow.cpp', {'assert': 'C18'}, extra=HSX, models=['sc'], bound=100, defs=['VF_N=36'])
-S('hs_default_exact2', 'hashset/hs_grow.cpp', {'assert': 'C18'}, extra=HSX, models=['sc'], bound=100, defs=['VF_N=2', 'VF_EXACT=1'])
-S('hs_default_le3', 'hashset/hs_grow.cpp', {'assert': 'C18'}, extra=HSX, models=['sc'], bound=100, defs=['VF_N=3'])
-S('hs_sized16_grow', 'hashset/hs_grow.cpp', {'assert': 'C18'}, extra=HSX, models=['sc'], bound=100, defs=['VF_N=36', 'VF_CTOR=Set(16)'])
+def hs(name, n, ctor=None, exact=False, **kw):
+    S('hs_' + name, 'hashset/hs_grow.cpp', {'assert': 'C18'}, extra=HSX, models=['sc'], bound=100, defs=['VF_N=%d' % n] + (['VF_CTOR=' + ctor] if ctor else []) + (['VF_EXACT=1'] if exact else []), **kw)
+hs('default_le6', 6)
+hs('sized16_le6', 6, 'Set(16)')
+hs('default_exact34', 34, exact=True)
+hs('sized16_exact34', 34, 'Set(16)', exact=True)
+hs('sized4_le6', 6, 'Set(4)')
+hs('default_le36', 36, tiers=('thorough',), timeout=7200)
+hs('sized16_le36', 36, 'Set(16)', tiers=('thorough',), timeout=7200)
 
 # ----------------------------------------------------------------------------------------------- manifest texts
 LEVEL_TEXT = {
@@ -165,7 +170,10 @@ TECH_EXTRA = {}
 NOT_APPLICABLE = {}
 
 # ----------------------------------------------------------------------------------------------- prototypes (to be enriched)
-S('rl_basic', 'vector/rl1.cpp', {'assert': 'C04'})
+# RetireList cooling period with a symbolic clock; clock readings within a 1024 s window (16 timestamp units), once at 0
+# and once straddling the 16-bit timestamp wrap (sec>>6 == 65536)
+S('rl_basic', 'vector/rl1.cpp', {'assert': 'C04'}, opts={'clock': 'sec', 'maxsec': '1024'})
+S('rl_wrap', 'vector/rl1.cpp', {'assert': 'C04'}, opts={'clock': 'sec', 'minsec': str((1 << 22) - 512), 'maxsec': str((1 << 22) + 512)})
 S('ht_same_key', 'hashtable/ht1.cpp', {'assert': 'C03'})
 S('ht_find', 'hashtable/ht2.cpp', {'assert': 'C03'})
 # ----------------------------------------------------------------------------------------------- C20: logging
